@@ -39,7 +39,7 @@ WORLDS = {
     'C11': [('tn', 1)], 'C12': [('tn', 1)], 'C13': [('tn', 1)],
     'C14': [('kr', 3), ('tn', 1)], 'C15': [('kr', 3), ('tn', 1)],
     'C16': [('gr', 1)], 'C17': [('gr', 1)],
-    'C19': [('tn', 1), ('gr', 1)], 'C20': [('tn', 1), ('gr', 1)],
+    'C19': [('tn', 3), ('gr', 3), ('kr', 1)], 'C20': [('tn', 1), ('gr', 1)],
 }
 
 # sessions per quick run (tuned to roughly a minute on 16 cores)
